@@ -1,5 +1,5 @@
 (* correspondence glue for C16: one constructor per decoder entry point *)
-From V Require Export Base.Hex Store.Codec Store.AppMeta Wire.PgMsg Wire.Stream.
+From V Require Export Base.Hex Store.Codec Store.AppMeta Wire.PgMsg Wire.Stream Store.OpenTime.
 
 Definition txmd_eqb (a b : txmd) : bool :=
   opt_eqb N.eqb (md_trunc a) (md_trunc b) && opt_eqb bytes_eqb (md_extra a) (md_extra b).
@@ -104,6 +104,33 @@ Fixpoint st_drive (step : st_step) (cap : nat) (r : mrecv) (acc : list (list byt
   end.
 Definition items_eqb := list_eqb (list_eqb bytes_eqb).
 
+(* ---------------- open-time parsing of tbtree / ahtree ---------------- *)
+(* switch to true when fixes/C16-tbtree-open-validation.diff resp.
+   fixes/C16-ahtree-clog-entry-bounds.diff are committed in /repo *)
+Definition tbtree_open_is_fixed : bool := false.
+Definition ahtree_open_is_fixed : bool := false.
+
+Definition clog_entry_eqb (a b : clog_entry) : bool :=
+  Bool.eqb (ce_synced a) (ce_synced b) && Z.eqb (ce_inl a) (ce_inl b) && Z.eqb (ce_fnl a) (ce_fnl b) &&
+  Z.eqb (ce_root a) (ce_root b) && bytes_eqb (ce_nck a) (ce_nck b) && Z.eqb (ce_ihl a) (ce_ihl b) &&
+  Z.eqb (ce_fhl a) (ce_fhl b) && bytes_eqb (ce_hck a) (ce_hck b).
+Definition res_class {A} (r : res A) : N := match r with Ok _ => 0 | Err _ => 1 | Panic => 2 end.
+Definition z3_eqb (a b : Z * Z * Z) : bool :=
+  let '(x, y, z) := a in let '(x', y', z') := b in Z.eqb x x' && Z.eqb y y' && Z.eqb z z'.
+Definition z2_eqb (a b : Z * Z) : bool := Z.eqb (fst a) (fst b) && Z.eqb (snd a) (snd b).
+Definition noderef_eqb (a b : noderef) : bool :=
+  bytes_eqb (nr_minkey a) (nr_minkey b) && (nr_ts a =? nr_ts b) && Z.eqb (nr_off a) (nr_off b) &&
+  Z.eqb (nr_minoff a) (nr_minoff b).
+Definition leafval_eqb (a b : leafval) : bool :=
+  bytes_eqb (lv_key a) (lv_key b) && bytes_eqb (lv_value a) (lv_value b) && (lv_ts a =? lv_ts b) &&
+  Z.eqb (lv_hoff a) (lv_hoff b) && (lv_hcount a =? lv_hcount b).
+Definition pnode_eqb (a b : pnode) : bool :=
+  match a, b with
+  | NInner x, NInner y => list_eqb noderef_eqb x y
+  | NLeaf x, NLeaf y => list_eqb leafval_eqb x y
+  | _, _ => false
+  end.
+
 Inductive case :=
 | CTxMd (inp : bytes) (out : res txmd)
 | CKvMd (inp : bytes) (out : res kvmd)
@@ -124,7 +151,20 @@ Inductive case :=
 | CStream (kind : N) (chunks : list bytes) (final : bool) (bs cap : N)
           (items : list (list bytes)) (panicked : bool) (allocated : N)
 (* msgReceiver.ReadFully *)
-| CStFully (chunks : list bytes) (final : bool) (out : res bytes) (allocated : N).
+| CStFully (chunks : list bytes) (final : bool) (out : res bytes) (allocated : N)
+(* tbtree: cLogEntry.deserialize + isValid on a 100-byte entry, and the outcome class of the two
+   appendable.Checksum calls OpenWith makes for a valid entry (0 value or EOF, 1 other error, 2 panic) *)
+| COtEntry (b : bytes) (e : clog_entry) (valid : bool) (ck : N)
+(* tbtree.OpenWith on an empty commit log whose metadata block is md: (maxNodeSize, maxKeySize, maxValueSize) *)
+| COtParams (md : bytes) (okey oval : Z) (out : res (Z * Z * Z))
+(* tbtree readNodeAt(off) on a nodes log *)
+| COtNode (log : bytes) (off : N) (out : res pnode) (allocated : N)
+(* tbtree readTsFile on a file with content b *)
+| COtTs (b : bytes) (out : res N)
+(* ahtree.OpenWith: commit log size, its last entry, sizes of the payload and digest logs *)
+| COtAhOpen (clog_size : Z) (entry : bytes) (pfile dfile : Z) (out : res (Z * Z))
+(* ahtree.DataAt for a leaf whose commit-log entry is `entry`: returned an error?, bytes allocated *)
+| COtAhData (plog_size : Z) (entry : bytes) (errored : bool) (allocated : N).
 
 Definition case_ok (c : case) : bool :=
   match c with
@@ -154,5 +194,18 @@ Definition case_ok (c : case) : bool :=
   | CStFully chunks final o a =>
       let m := read_fully stream_is_fixed {| s_chunks := chunks; s_final_eof := final |} in
       res_eqb bytes_eqb (fst m) o && alloc_ok (snd m) a
+  | COtEntry b e valid ck =>
+      res_eqb clog_entry_eqb (clog_deser b) (Ok e) &&
+      Bool.eqb (clog_valid tbtree_open_is_fixed e) valid &&
+      (if valid then res_class (tb_entry_check tbtree_open_is_fixed b) =? ck else true)
+  | COtParams md ok ov o => res_eqb z3_eqb (tb_open_params tbtree_open_is_fixed md ok ov) o
+  | COtNode log off o a =>
+      let m := read_node tbtree_open_is_fixed (drop off log) in
+      res_eqb pnode_eqb (fst m) o && alloc_ok (snd m) a
+  | COtTs b o => res_eqb N.eqb (ts_read tbtree_open_is_fixed b) o
+  | COtAhOpen cs e pf df o => res_eqb z2_eqb (ah_open ahtree_open_is_fixed cs e pf df) o
+  | COtAhData ps e errored a =>
+      let m := ah_data_at ahtree_open_is_fixed ps e in
+      (match fst m with Ok _ => true | Err _ => errored | Panic => false end) && alloc_ok (snd m) a
   end.
 
